@@ -56,6 +56,8 @@ def run_history(M, steps):
                 out.append(getattr(objs[s[1]], "c_" + s[2])())
             elif op == "f":
                 out.append(getattr(M, "f_%s_%s" % (s[2], s[3]))(objs[s[1]]))
+            elif op == "u":
+                out.append(getattr(objs[s[1]], "u_" + s[2])())
         except Exception as e:
             out.append("EXC:" + type(e).__name__)
     return out
@@ -120,7 +122,7 @@ def history(draw, h, nsteps=12):
     def add_call(var=None):
         var = var or pick(draw, sorted(objs))
         m = pick(draw, METHS)
-        kind = pick(draw, ["py", "c", "c", "f"])
+        kind = pick(draw, ["py", "c", "c", "f", "u"])
         if kind == "f":
             k = irange(draw, 0, level_of[objs[var]])
             steps.append(["f", var, m, cname(h, k)])
@@ -198,6 +200,9 @@ def render_hierarchy(h, pyx):
         for m in METHS:
             out.append("    def c_%s(self):" % m)
             out.append("        return self.%s()" % m)
+            # explicit unbound call of this class's implementation: must NOT dispatch to an override
+            out.append("    def u_%s(self):" % m)
+            out.append("        return %s.%s(self)" % (n, m))
         out.append("")
     for k in range(depth):
         n = cname(h, k)
